@@ -17,7 +17,7 @@ MANIFEST = {
     'note': 'Trusted: ref/wbeval.py for the vocabulary used by the three models; the fingerprint is over-fine (extra states only). write()/to_dict() appear as preceding operations only.',
 }
 RULE = 'state = fingerprint of the model after a history; transition = one more operation, replayed from a fresh model; non-trivial = every executed transition; distinct = history key'
-ASSUMPTIONS = ['three fixed workbooks stand for "all workbooks"; histories are bounded by the horizon unless the frontier empties earlier (reported)']
+ASSUMPTIONS = ['overriding part of an array-formula block (not possible in Excel): readers of the overridden elements through the block or an overlapping range are not judged against the reference', 'three fixed workbooks stand for "all workbooks"; histories are bounded by the horizon unless the frontier empties earlier (reported)']
 B, C = M.B, M.C
 
 
@@ -91,7 +91,28 @@ def ops_for(model):
             'compile-G': ('compile', [i(B, 'S', 'G3')], {k('G3'): ('n', 11.0)}, [i(B, 'S', 'H1'), i(B, 'S', 'H2')], [11]),
             'to_dict': ('to_dict',), 'write': ('write',), 'deepcopy': ('deepcopy',),
         }
+    if model == 'e':
+        k = lambda c: M.K('S', c)
+        ov = {k(c): ('n', float(v)) for c, v in zip(('B3', 'C3', 'B4', 'C4', 'B5', 'C5', 'B6', 'C6'), range(1, 9))}
+        return {
+            'calc': ('calc', {}, {}, None),
+            'A1=5': ('calc', {i(B, 'S', 'A1'): 5}, {k('A1'): ('n', 5.0)}, None),
+            'B3:C6=1..8': ('calc', {i(B, 'S', 'B3:C6'): [[1, 2], [3, 4], [5, 6], [7, 8]]}, ov, None),
+            'B2=5': ('calc', {i(B, 'S', 'B2'): 5}, {k('B2'): ('n', 5.0)}, None),
+            'B4=txt': ('calc', {i(B, 'S', 'B4'): 'q'}, {k('B4'): ('t', 'q')}, None),
+            'B1:B4=9,8,7,6': ('calc', {i(B, 'S', 'B1:B4'): [[9], [8], [7], [6]]}, {k('B%d' % r): ('n', float(10 - r)) for r in (1, 2, 3, 4)}, None),
+            'A1:A4=2,2,2,2': ('calc', {i(B, 'S', 'A1:A4'): [[2], [2], [2], [2]]}, {k('A%d' % r): ('n', 2.0) for r in (1, 2, 3, 4)}, None),
+            'C5=0>D1': ('calc', {i(B, 'S', 'C5'): 0}, {k('C5'): ('n', 0.0)}, [i(B, 'S', 'D1')]),
+            'compile': ('compile', [i(B, 'S', 'A1')], {k('A1'): ('n', 7.0)}, [i(B, 'S', 'D1'), i(B, 'S', 'D2')], [7]),
+            'to_dict': ('to_dict',), 'write': ('write',), 'deepcopy': ('deepcopy',),
+        }
     raise ValueError(model)
+
+
+# Overriding PART of an array-formula block is not an Excel operation ("You cannot change part of an array"): what a reader of
+# the block, or of a range overlapping it, sees of the overridden elements is not fixed by the statement.  Those readers are
+# not judged against the reference (they still must not depend on the history); everything else is.
+UNJUDGED = {'e': {'B3:C6=1..8': ['B3', 'B4', 'D3', 'D4'], 'B2=5': ['D4'], 'B4=txt': ['D4', 'D1']}}
 
 
 def lib_value(v):
@@ -192,13 +213,16 @@ def run_case(case):
     ref = reference(model, name)
     o = ops_for(model)[name]
     if ref is not None and o[0] == 'calc':
+        unj = {M.K('S', c) for c in UNJUDGED.get(model, {}).get(name, ())}
         for k, v in got.items():
+            if k in unj:
+                continue
             e = ref.get(k, BLANK)
             if not (v == e or close(v, e, 1e-12) or (e == BLANK and v == BLANK)):
                 fails.append(Fail('wrong-value', got='%s=%s' % (k, v), exp='%s=%s' % (k, e), cell=k, **desc))
                 break
         if o[3] is None:
-            missing = [k for k in ref if k not in got and ref[k] != BLANK]
+            missing = [k for k in ref if k not in got and ref[k] != BLANK and k not in unj]
             if missing:
                 fails.append(Fail('wrong-value', got='%s absent' % missing[0], exp='%s=%s' % (missing[0], ref[missing[0]]), cell=missing[0], **desc))
     if ref is not None and o[0] == 'compile':
